@@ -10,14 +10,18 @@ KINDS = ('tcp', 'rtu', 'ascii', 'binary')
 
 def r1_loop(ck, cx, kind, cls, f, fps):
     dels = 0
+    any_in_loop = any(in_root_loop(fp, d) for fp in fps for d in fp.deliveries)
     for fp in fps:
         for d in fp.deliveries:
             dels += 1
-            ok = in_root_loop(fp, d)
+            # a trailing delivery after the frame loop (e.g. the error path once nothing more is ready) does not stop
+            # the loop from delivering several frames; a delivery on a path that never met a loop does
+            after_loop = any(i < d for i, kind, node in fp.loops)
+            ok = in_root_loop(fp, d) or (after_loop and any_in_loop)
             ck.ob('R1', f.qn, 'delivery happens inside a loop of processIncomingPacket (several frames per read)', ok,
                   detail='delivery-outside-loop', loc=cx.floc(f),
                   message='%s framer delivers at most one frame per processIncomingPacket call: a second frame in the same read stays undelivered' % kind)
-            if ok and not fp.absences:
+            if ok and in_root_loop(fp, d) and not fp.absences:
                 # the loop must be able to continue after a delivery: the delivering iteration ends at the back-edge, not at a break
                 after = [k for i, k, n in fp.loops if i > d]
                 ck.ob('R1', f.qn, 'loop continues after a delivery', bool(after) and after[0] == 'backedge',
